@@ -188,6 +188,10 @@ def prove(path, goal, timeout_ms=DEFAULT_TIMEOUT_MS):
         return {'unsat': 'proved', 'sat': 'refuted'}.get(r, 'unknown')
     rel = relevant(list(path), goal)
     r = check_sat(rel + [~goal], min(timeout_ms, 5000))
+    if r not in ('sat', 'unsat') and len(rel) == len(path) and timeout_ms > 5000:
+        # the 5 s cap is a shortcut for the cone-of-influence query; when there is no larger query to fall back on, a timeout under machine load
+        # must not decide the clause: ask again with the whole budget
+        r = check_sat(rel + [~goal], timeout_ms)
     if r == 'unsat': return 'proved'
     if len(rel) < len(path):
         r2 = check_sat(list(path) + [~goal], timeout_ms)
